@@ -365,8 +365,14 @@ def op_dup_choice(form, r):
     rows = form["lists"][i]["rows"]
     j = r.randrange(len(rows))
     dup = copy.deepcopy(rows[j])
-    rows.append(dup)
-    return Plan(form, tokens=["duplicate"], row=choice_row_number(form, i, len(rows) - 1), sheet="choices", depth=1)
+    if r.random() < 0.4:
+        # the duplicate is one of those rows that also draw the "should have a label" warning
+        dup = {"name": dup["name"]}
+        if r.random() < 0.5:
+            dup["image"] = "dup.png"
+    rows.insert(r.randrange(len(rows) + 1), dup) if r.random() < 0.5 else rows.append(dup)
+    same = [k for k, rw in enumerate(rows) if rw.get("name") == dup["name"]]
+    return Plan(form, tokens=["duplicate"], row=choice_row_number(form, i, same[1]), sheet="choices", depth=1)
 
 
 def op_calc_no_calculation(form, r):
